@@ -409,6 +409,32 @@ def solve_serialized(arg):
             deadline_s = min(deadline_s or 8.0, 8.0)
     except ValueError:
         pass
+    # z3's sequence solver sometimes ignores its own timeout (a model with a very long string to construct: minutes of CPU, gigabytes):
+    # a watchdog thread interrupts the solver once the obligation's deadline is well past and, if that does not help either, ends this
+    # worker process - the parent reports the queries it had as undecided
+    import threading
+    limit = float(deadline_s or os.environ.get('PYVC_DEADLINE_S', '30'))
+    t_begin = time.time()
+    done = threading.Event()
+
+    def _watch():
+        while not done.wait(5.0):
+            over = time.time() - t_begin - limit
+            if over > 150:
+                os._exit(17)
+            if over > 45:
+                try:
+                    z3.main_ctx().interrupt()
+                except Exception:
+                    pass
+    threading.Thread(target=_watch, daemon=True).start()
+    try:
+        return _solve_serialized(q, timeout_ms, deadline_s)
+    finally:
+        done.set()
+
+
+def _solve_serialized(q, timeout_ms, deadline_s):
     fs = list(z3.parse_smt2_string(q['smt2']))
     if len(fs) != q['n'] + 1:
         # z3 may merge / split assertions when printing: fall back to a single undifferentiated query
@@ -602,10 +628,24 @@ def prove_function(world, make_models, contract, timeout_ms=None, arg_terms_out=
             # under an unchanged contract), the remaining queries get a short deadline - they are reported as
             # undecided either way, and the check ends in minutes instead of (obligations x deadline / workers)
             nfirst = min(len(hard), 2 * inner_jobs)
-            first = list(ex.map(solve_serialized, [(p, timeout_ms) for p in payload[:nfirst]]))
+
+            def gather(args):
+                # a worker that had to end itself (watchdog) breaks the pool: what it had, and what was still queued, is undecided
+                futs = [ex.submit(solve_serialized, a) for a in args]
+                out = []
+                for f_ in futs:
+                    try:
+                        out.append(f_.result())
+                    except Exception as e_:
+                        out.append(('undecided', 'solver worker ended (%s)' % type(e_).__name__, 0.0, None, 'worker ended by the watchdog'))
+                return out
+            first = gather([(p, timeout_ms) for p in payload[:nfirst]])
             slow = sum(1 for r in first if r[0] == 'undecided')
             short = 8.0 if (slow >= 4 and 2 * slow >= nfirst) else None
-            rest = list(ex.map(solve_serialized, [(p, timeout_ms, short) for p in payload[nfirst:]]))
+            try:
+                rest = gather([(p, timeout_ms, short) for p in payload[nfirst:]])
+            except Exception as e_:
+                rest = [('undecided', 'solver pool broken (%s)' % type(e_).__name__, 0.0, None, 'pool broken')] * len(payload[nfirst:])
             for i, r in zip(hard, first + rest):
                 results[i] = r
     else:
